@@ -764,7 +764,8 @@ func (s *Store[H]) deinit() {
 	s.heightIndex.cache.Purge()
 	s.contiguousHead.Store(nil)
 	s.tailHeader.Store(nil)
-	s.heightSub.SetHeight(0)
+	// SetHeight only ever grows the height, so reset it explicitly
+	s.heightSub.Init(0)
 }
 
 // withWriteBatch attaches a new batch to the given context and returns cleanup func.
